@@ -480,6 +480,7 @@ struct SolverEngine: Engine{
     AllocCfg cfg; const Json& a=plan["alloc"];
     cfg.reuse=(int)a["reuse"].as_int(REUSE_LIFO); cfg.residue=(int)a["residue"].as_int(RESIDUE_RANDOM); cfg.fill=(int)a["fill"].as_int(0);
     cfg.c_reuse=(int)a["c_reuse"].as_int(REUSE_LIFO); cfg.seed=(uint64_t)a["seed"].as_int(1);
+    cfg.passthrough=0;
     alloc_run_begin(cfg);
     std::thread th([&]{
       Run& R=*run;
